@@ -234,13 +234,14 @@ fn bulk_refs(si: usize, sc: &Value) -> Value {
     // (Node::monitor / unlink towards a node whose connection is in the table but not connected): PidAlloc!RefFail
     let failing = sc["failing"].as_bool().unwrap_or(false);
     let stop = Arc::new(std::sync::atomic::AtomicBool::new(false));
+    let failed_so_far = Arc::new(std::sync::atomic::AtomicU64::new(0));
     let mut failers = Vec::new();
     if failing {
         let peer = "ghost@127.0.0.1";
         let conn = edp_client::Connection::new(edp_client::ConnectionConfig::new("verif@127.0.0.1", peer, "cookie"));
         node.connections().insert(peer.to_string(), Arc::new(tokio::sync::Mutex::new(conn)));
         for _ in 0..n {
-            let (nd, st) = (node.clone(), stop.clone());
+            let (nd, st, fsf) = (node.clone(), stop.clone(), failed_so_far.clone());
             failers.push(std::thread::spawn(move || {
                 let rt = tokio::runtime::Builder::new_current_thread().enable_all().build().expect("rt");
                 let from = erltf::ExternalPid::new(Atom::new("verif@127.0.0.1"), 1, 0, 1);
@@ -250,15 +251,22 @@ fn bulk_refs(si: usize, sc: &Value) -> Value {
                     while !st.load(Ordering::Relaxed) {
                         if nd.monitor(&from, &to).await.is_err() {
                             failed += 1;
+                            fsf.fetch_add(1, Ordering::Relaxed);
                         }
                         if nd.unlink(&from, &to).await.is_err() {
                             failed += 1;
+                            fsf.fetch_add(1, Ordering::Relaxed);
                         }
                     }
                 });
                 failed
             }));
         }
+    }
+    // (the failing operations are under way before the first reference is made, and go on until enough of them have run alongside)
+    let t_wait = std::time::Instant::now();
+    while failing && failed_so_far.load(Ordering::Relaxed) < 50 && t_wait.elapsed() < Duration::from_secs(10) {
+        std::thread::sleep(Duration::from_millis(1));
     }
     for _ in 0..n {
         let nd = node.clone();
@@ -274,6 +282,10 @@ fn bulk_refs(si: usize, sc: &Value) -> Value {
     let mut refs: Vec<(Vec<u32>, u32)> = Vec::new();
     for h in hs {
         refs.extend(h.join().unwrap_or_default());
+    }
+    let t_wait = std::time::Instant::now();
+    while failing && failed_so_far.load(Ordering::Relaxed) < 1500 && t_wait.elapsed() < Duration::from_secs(10) {
+        std::thread::sleep(Duration::from_millis(1));
     }
     stop.store(true, Ordering::Relaxed);
     let failed_ops: u64 = failers.into_iter().map(|h| h.join().unwrap_or(0)).sum();
